@@ -151,13 +151,13 @@ example : noQuoteAtEnds [100, 47, 97] = true := by decide
     body executed more than once. -/
 theorem import_runs_once (env : Env) (fuel : Nat) (main : List Stmt)
     (h : Clean (run env fuel main).2) : (run env fuel main).2.ticks.Nodup :=
-  ((run_rel R2_impOK env fuel main).2 h ⟨by simp [St.init], by simp [St.init]⟩).2
+  ((run_rel env (R2_impOK env) fuel main).2 h ⟨by simp [St.init], by simp [St.init]⟩).2
 
 /-- a module object is created exactly when a body starts: the names of all module objects
     ever created are the body-execution log (unconditionally). -/
 theorem objects_are_body_runs (env : Env) (fuel : Nat) (main : List Stmt) :
     (run env fuel main).2.objs.map (·.1) = (run env fuel main).2.ticks :=
-  (run_rel R3_impOK env fuel main).2.2 (by simp [OT, St.init])
+  (run_rel env (R3_impOK env) fuel main).2.2 (by simp [OT, St.init])
 
 theorem nodup_getElem_inj {α : Type} (l : List α) (h : l.Nodup) (i j : Nat) (a : α)
     (hi : l[i]? = some a) (hj : l[j]? = some a) : i = j := by
@@ -198,20 +198,86 @@ theorem import_same_object (env : Env) (fuel : Nat) (main : List Stmt)
   · simp [List.getElem?_map, hi]
   · simp [List.getElem?_map, hj]
 
-/-- **A module's globals are its own** (unconditionally — failing, cyclic and spawned
-    imports included): in every reachable state the globals arrays of module objects of
-    different modules are different arrays, and none of them is the importing script's
-    array (index 0). -/
-theorem module_globals_disjoint (env : Env) (fuel : Nat) (main : List Stmt) :
+/-- the VM-side invariant `K` holds in the final state of every evaluation, whatever the
+    importer hands out -/
+theorem run_K (env : Env) (fuel : Nat) (main : List Stmt) : K (run env fuel main).2 :=
+  (run_rel env (R3_impOK env) fuel main).2.1
+    ⟨by simp [St.init], by simp [St.init], by simp [St.init], by simp [St.init], by simp [St.init]⟩
+
+/-- **A module's globals are its own — for ANY importer, under the hypothesis that is
+    actually needed**: the VM keys a module's globals array by the identity of its compiled
+    code object (`vm.loadedCode : map[*compiler.Code]*code`), so IF the importer never gave
+    two different module paths the same code object (`CodeInj`: distinct paths ⇒ distinct
+    code identities) THEN in the final state of every evaluation — every module table, every
+    script, failing, cyclic and spawned imports included — the globals arrays of module
+    objects of different modules are different arrays, and none of them is the importing
+    script's array (index 0).  The hypothesis is discharged for the unchanged importers by
+    `importer_distinct_paths_distinct_code`; `distinct_code_needed` shows it cannot be dropped. -/
+theorem module_globals_disjoint (env : Env) (fuel : Nat) (main : List Stmt)
+    (hcode : CodeInj (run env fuel main).2) :
     ∀ a ∈ (run env fuel main).2.objs, a.2 ≠ 0 ∧
       ∀ b ∈ (run env fuel main).2.objs, a.1 ≠ b.1 → a.2 ≠ b.2 := by
-  have hk : K (run env fuel main).2 :=
-    (run_rel R3_impOK env fuel main).2.1 ⟨by simp [St.init], by simp [St.init], by simp [St.init]⟩
+  obtain ⟨k1, k2, _, k4, _⟩ := run_K env fuel main
   intro a ha
+  obtain ⟨ca, hca, hoa⟩ := k4 a ha
   refine ⟨?_, ?_⟩
-  · have := (hk.1 a (List.mem_append_right _ ha)).1; omega
+  · have := (k1 _ hoa).1; simp only at this; omega
   · intro b hb hne heq
-    exact hne (hk.2.1 a (List.mem_append_right _ ha) b (List.mem_append_right _ hb) heq)
+    obtain ⟨cb, hcb, hob⟩ := k4 b hb
+    have hc : ca = cb := k2 _ hoa _ hob heq
+    subst hc
+    exact hne (hcode (a.1, ca) hca (b.1, ca) hcb rfl)
+
+/-- **The importer compiles every module path separately, so distinct paths get distinct
+    code objects** — about the importer model alone: for ANY sequence of `Import(name)` calls
+    on one `LocalImporter`/`FSImporter` (any module table, names repeated or not, existing or
+    not), two names that hold the same code object in its cache are the same name. -/
+theorem importer_distinct_paths_distinct_code (env : Env) (hl : LocalImporter env) (names : List Path) :
+    ∀ n1 n2 c, (n1, c) ∈ (importSeq env names St.init).compiled →
+      (n2, c) ∈ (importSeq env names St.init).compiled → n1 = n2 := by
+  have key : ∀ (names : List Path) (st : St), ImporterInv st → ImporterInv (importSeq env names st) := by
+    intro names
+    induction names with
+    | nil => intro st h; exact h
+    | cons n rest ih =>
+      intro st h
+      simp only [importSeq, List.foldl_cons]
+      apply ih
+      split
+      · exact ImporterInv_noteOpens st env n h
+      · exact ImporterInv_noteCompiled _ env hl n (ImporterInv_noteOpens st env n h)
+  have h0 : ImporterInv St.init := ⟨by intro p hp; simp [St.init] at hp, by intro p hp; simp [St.init] at hp⟩
+  intro n1 n2 c h1 h2
+  exact (key names St.init h0).1 (n1, c) h1 (n2, c) h2 rfl
+
+/-- the same inside the import machine: in the final state of EVERY evaluation (the importer
+    is called from `vm.importModule`, by the script, by module bodies, inside `try` and in
+    spawned clones) the unchanged importer's cache is injective on code identities. -/
+theorem importer_distinct_paths_distinct_code_run (env : Env) (hl : LocalImporter env) (fuel : Nat)
+    (main : List Stmt) : CodeInj (run env fuel main).2 :=
+  (run_rel env (R4_impOK env hl) fuel main
+    ⟨by intro p hp; simp [St.init] at hp, by intro p hp; simp [St.init] at hp⟩).1
+
+/-- **A module's globals are its own, for the importers of the unchanged code**
+    (unconditionally — failing, cyclic and spawned imports included): the statement of
+    `module_globals_disjoint` with its hypothesis discharged. -/
+theorem module_globals_disjoint_local (env : Env) (hl : LocalImporter env) (fuel : Nat) (main : List Stmt) :
+    ∀ a ∈ (run env fuel main).2.objs, a.2 ≠ 0 ∧
+      ∀ b ∈ (run env fuel main).2.objs, a.1 ≠ b.1 → a.2 ≠ b.2 :=
+  module_globals_disjoint env fuel main (importer_distinct_paths_distinct_code_run env hl fuel main)
+
+/-- the decidable Spec predicate the oracle prints agrees with the statement -/
+theorem globalsDisjoint_of_distinct_code (env : Env) (fuel : Nat) (main : List Stmt)
+    (hcode : CodeInj (run env fuel main).2) : globalsDisjoint (run env fuel main).2 = true := by
+  have h := module_globals_disjoint env fuel main hcode
+  simp only [globalsDisjoint, List.all_eq_true, Bool.and_eq_true, bne_iff_ne, ne_eq, Bool.or_eq_true,
+    beq_iff_eq]
+  intro a ha
+  refine ⟨(h a ha).1, ?_⟩
+  intro b hb
+  by_cases e : a.1 = b.1
+  · exact Or.inl e
+  · exact Or.inr ((h a ha).2 b hb e)
 
 theorem getElem?_modifyAt_ne {α : Type} (f : α → α) (n m : Nat) (l : List α) (h : m ≠ n) :
     (modifyAt f n l)[m]? = l[m]? := by
@@ -248,6 +314,37 @@ theorem module_function_store_only_target (imp : ImpFn) (env : Env) (g depth : N
   rw [ha]
   simp only [ho, St.store, St.globals]
   rw [getElem?_modifyAt_ne _ _ _ _ h]
+
+/-- a counter bumped by a module's own function (`alias.add_n(k)`, i.e. `n = n + k` inside the
+    module) changes only the globals array of the module object the alias denotes: the same-named
+    counter of every other module — one with byte-identical source included — keeps its value -/
+theorem module_counter_only_target (imp : ImpFn) (env : Env) (g depth : Nat) (st : St)
+    (left : List Val) (alias var : Path) (k : Int) (o : Nat) (n : Path) (gt : Nat)
+    (ha : (st.globals g).lookup alias = some (.mod o)) (ho : st.objs[o]? = some (n, gt))
+    (g' : Nat) (h : g' ≠ gt) :
+    (execStmt imp env g depth st left (.addVia alias var k)).2.globals g' = st.globals g' := by
+  simp only [execStmt]
+  rw [ha]
+  simp only [ho]
+  split
+  · simp only [St.store, St.globals]
+    rw [getElem?_modifyAt_ne _ _ _ _ h]
+  · rfl
+
+/-- a list appended to by a module's own function (`alias.push_l(v)`, i.e. `l.append(v)` inside
+    the module) changes only the globals array of the module object the alias denotes -/
+theorem module_list_only_target (imp : ImpFn) (env : Env) (g depth : Nat) (st : St)
+    (left : List Val) (alias var : Path) (v : Int) (o : Nat) (n : Path) (gt : Nat)
+    (ha : (st.globals g).lookup alias = some (.mod o)) (ho : st.objs[o]? = some (n, gt))
+    (g' : Nat) (h : g' ≠ gt) :
+    (execStmt imp env g depth st left (.pushVia alias var v)).2.globals g' = st.globals g' := by
+  simp only [execStmt]
+  rw [ha]
+  simp only [ho]
+  split
+  · simp only [St.store, St.globals]
+    rw [getElem?_modifyAt_ne _ _ _ _ h]
+  · rfl
 
 /-! ### What the unchanged code violates: full statements, witnesses, guards -/
 
@@ -402,6 +499,53 @@ theorem C14_partial_from_import_binds (imp : ImpFn) (env : Env) (depth : Nat) (p
       simp
 
 example : singleItem [(nmA, nmA)] = true := by decide
+
+/-! ### Modules with identical source text -/
+
+def nmE : Path := [101, 47, 99]   -- e/c   (east/counter)
+def nmW : Path := [119, 47, 99]   -- w/c   (west/counter)
+def nmN : Path := [110]           -- n
+def nmP : Path := [112]
+def nmQ : Path := [113]
+
+/-- two copies of one template: the same statements under two module paths -/
+def twinBody : List Stmt := [.set nmN 0, .set [120] 100, .newList [108]]
+def twinFiles : List (Path × List Stmt) := [(nmE, twinBody), (nmW, twinBody)]
+/-- `import "e/c" as p; p.add_n(3); p.set_x(5); p.push_l(1); import "w/c" as q; q.add_n(4); q.push_l(2); import "e/c" as r` -/
+def twinMain : List Stmt :=
+  [.imp nmE nmP, .addVia nmP nmN 3, .setVia nmP [120] 5, .pushVia nmP [108] 1, .imp nmW nmQ, .addVia nmQ nmN 4,
+   .pushVia nmQ [108] 2, .imp nmE [114]]
+
+def sharingEnv : Env :=
+  { root := [47, 82], exts := [[]], files := twinFiles, limit := 1024, reuse := shareByText twinFiles [[]] }
+
+/-- **The hypothesis of `module_globals_disjoint` cannot be dropped**: with an importer that
+    hands the same code object to two module paths (here: a compile cache keyed by the source
+    text, two byte-identical modules) the VM gives both modules ONE globals array: the second
+    import re-runs the body over the first module's variables and from then on a store through
+    one alias is seen through the other. -/
+theorem distinct_code_needed :
+    ∃ (env : Env) (fuel : Nat) (main : List Stmt),
+      ¬ CodeInj (run env fuel main).2 ∧ globalsDisjoint (run env fuel main).2 = false :=
+  ⟨sharingEnv, 5, twinMain, by decide, by decide⟩
+
+-- the sharing importer: both module objects sit on array 1; q's bump is seen through p, p's
+-- earlier state was wiped by the second run of the body
+example : (run sharingEnv 5 twinMain).2.objs = [(nmE, 1), (nmW, 1)] := by decide
+example : ((run sharingEnv 5 twinMain).2.globals 1).lookup nmN = some (.int 4) := by decide
+-- the unchanged importer (default `reuse`): two code objects, two arrays, two counters
+example : LocalImporter (envOf twinFiles 1024) := fun _ _ => rfl
+example : (run (envOf twinFiles 1024) 5 twinMain).2.compiled = [(nmW, 1), (nmE, 0)] := by decide
+example : (run (envOf twinFiles 1024) 5 twinMain).2.objs = [(nmE, 1), (nmW, 2)] := by decide
+example : ((run (envOf twinFiles 1024) 5 twinMain).2.globals 1).lookup nmN = some (.int 3) := by decide
+example : ((run (envOf twinFiles 1024) 5 twinMain).2.globals 1).lookup [120] = some (.int 5) := by decide
+example : ((run (envOf twinFiles 1024) 5 twinMain).2.globals 2).lookup nmN = some (.int 4) := by decide
+example : ((run (envOf twinFiles 1024) 5 twinMain).2.globals 2).lookup [120] = some (.int 100) := by decide
+example : ((run (envOf twinFiles 1024) 5 twinMain).2.globals 1).lookup [108] = some (.list [1]) := by decide
+example : ((run (envOf twinFiles 1024) 5 twinMain).2.globals 2).lookup [108] = some (.list [2]) := by decide
+example : ((run sharingEnv 5 twinMain).2.globals 1).lookup [108] = some (.list [2]) := by decide
+example : (run (envOf twinFiles 1024) 5 twinMain).2.ticks = [nmE, nmW] := by decide
+example : cleanRun (run (envOf twinFiles 1024) 5 twinMain).2 = true := by decide
 
 /-! ### Non-vacuity: programs inside the guard -/
 
